@@ -439,6 +439,34 @@ func concretise(c *expCase) (*concrete, error) {
 			cc.nodeOf[i] = m
 		}
 	}
+	// 2b. decoys: every top-level name also exists, with other content, in every OTHER document, so
+	// that a reference resolved in the wrong document yields wrong content rather than an error
+	if expFlags.decoys {
+		for i := 1; i <= n; i++ {
+			a := c.Nodes[i-1]
+			if a.Owner != 0 {
+				continue
+			}
+			for d := 0; d < nd; d++ {
+				if d == a.Doc {
+					continue
+				}
+				lab := "decoy" + strconv.Itoa(i) + "d" + strconv.Itoa(d)
+				var m map[string]interface{}
+				switch a.Kind {
+				case "s":
+					m = map[string]interface{}{"title": lab}
+				case "p":
+					m = map[string]interface{}{"name": lab, "in": "query", "type": "string"}
+				case "r":
+					m = map[string]interface{}{"description": lab}
+				default:
+					m = map[string]interface{}{"x-label": lab}
+				}
+				_ = setAt(cc.docs[d], cc.paths[i], m)
+			}
+		}
+	}
 	// 3. attach children to owners / sections
 	for i := 1; i <= n; i++ {
 		a := c.Nodes[i-1]
@@ -623,6 +651,7 @@ var expFlags struct {
 	ids        string
 	oddTargets bool
 	allFaults  bool
+	decoys     bool
 }
 
 func init() {
@@ -637,6 +666,7 @@ func init() {
 			fs.StringVar(&expFlags.entry, "entry", "ExpandSpec", "entry point")
 			fs.StringVar(&expFlags.failsets, "failsets", "none", "comma list of sets (a+b) of documents the loader refuses")
 			fs.StringVar(&expFlags.caches, "caches", "none", "comma list of cache modes: none,fresh,reuse,preload:0+1")
+			fs.BoolVar(&expFlags.decoys, "decoys", true, "every top-level name also exists, with other content, in the other documents")
 			fs.BoolVar(&expFlags.allFaults, "allfaults", false, "graphs with exactly one dangling ref are run once per fault class")
 			fs.BoolVar(&expFlags.oddTargets, "oddtargets", false, "dangling refs point at JSON null / an empty object instead (C04 only)")
 			fs.StringVar(&expFlags.ids, "ids", "", "comma list of id classes given (in rotation) to the structured schemas: abs,relfile,reldir,frag")
